@@ -25,7 +25,7 @@ RULE = (
 )
 ASSUMPTIONS = ["libxml2's XSD validator is the judge of schema validity", "e-mail option values match the XSD pattern (the brief of the property)"]
 BUDGET = {"quick": (240, 4), "thorough": (40000, 16)}
-REQUIRED = ["sf_nested", "no_file_history", "failed_run", "-dr", "many_formats", "-n", "ignore_opts", "creator_opts", "flatten", "renamed_directory_record"]
+REQUIRED = ["sf_nested", "no_file_history", "failed_run", "-dr", "many_formats", "-n", "ignore_opts", "creator_opts", "flatten", "renamed_directory_record", "renamed_nested_history_folder"]
 
 _text = st.one_of(gen.names("full"), st.text(max_size=20).filter(lambda s: all(ord(c) >= 32 and c not in "\x7f  ￾￿" and not (0xD800 <= ord(c) <= 0xDFFF) and not (0x80 <= ord(c) < 0xA0) for c in s)))
 _email = st.builds(lambda a, b, c: "%s@%s.%s" % (a, b, c), gen.plain_names(), st.text("abcxyz", min_size=1, max_size=5), st.sampled_from(["com", "de", "co.uk"]))
@@ -79,6 +79,10 @@ def _with_rename(draw):
             fm = draw(gen.formats(2))
             scn["steps"].append({"op": "put_new", "path": "rdir/f1.mov", "spec": "unique content one"})
             scn["steps"].append({"op": "put_new", "path": "rdir/sub/f2.mov", "spec": "unique content two"})
+            if draw(st.booleans()):
+                # ... which has a history of its own (the renamed folder is then a nested history root)
+                scn["steps"].append({"op": "create", "root": "rdir", "formats": fm, "flags": [], "extra": []})
+                scn["renamed_history_folder"] = True
             scn["steps"].append({"op": "create", "root": "", "formats": fm, "flags": [], "extra": []})
             scn["steps"].append({"op": "mv", "src": draw(st.sampled_from(["rdir", "rdir/sub"])), "dst": "rdir.renamed"})
             scn["steps"].append({"op": "create", "root": "", "formats": fm, "flags": ["-dr"], "extra": []})
@@ -206,5 +210,7 @@ def run_case(scn, ctx):
             ctx.event("files_validated", len(written))
             if len(written) >= 2 and feats:
                 nontrivial = True
+        if scn.get("renamed_history_folder"):
+            ctx.event("renamed_nested_history_folder")
         ctx.mark_nontrivial(nontrivial)
         return w.trace
